@@ -39,7 +39,7 @@ func init() {
 			}
 			return []runner.Phase{
 				{Name: "iterations", Variant: "race", Cases: n, Run: c15case, CaseTimeout: 120 * time.Second,
-					Required: []string{"multi_page_iterations", "empty_pages", "fetch_errors", "manual_paging", "manual_paging_from_empty_state", "consumer_scan", "consumer_scanner", "consumer_mapscan", "consumer_slicemap", "prepared", "unprepared", "skipmeta"}},
+					Required: []string{"multi_page_iterations", "empty_pages", "fetch_errors", "manual_paging", "manual_paging_from_empty_state", "with_speculative_policy", "concurrent_manual_pagers", "consumer_scan", "consumer_scanner", "consumer_mapscan", "consumer_slicemap", "prepared", "unprepared", "skipmeta"}},
 			}
 		},
 	})
@@ -155,6 +155,89 @@ func (cn *c15node) handler(sc *fakenode.ServerConn, req *fakenode.Req) {
 	sc.ReplyRows(req, &cqlref.RowsSpec{Meta: meta, Rows: rows})
 }
 
+// c15concurrentPagers: several goroutines page through the same prepared statement by hand at the same time, each
+// from its own position: every one of them must see the rows of its page and the next state the node sent for
+// *its* request.
+func c15concurrentPagers(c *runner.Ctx, sess *gocql.Session, cn *c15node, i int, version int) {
+	r := c.Rng
+	set := &c15set{id: fmt.Sprintf("cp%d", i), errAt: -1, prepared: true}
+	np := 6 + r.Intn(10)
+	rid := int32(1)
+	for p := 0; p < np; p++ {
+		var rows []int32
+		for x := 0; x < 1+r.Intn(4); x++ {
+			rows = append(rows, rid)
+			rid++
+		}
+		set.pages = append(set.pages, rows)
+	}
+	cn.mu.Lock()
+	cn.sets[set.id] = set
+	cn.mu.Unlock()
+	stmt := "SELECT PAGED " + set.id + " FROM ks.paged WHERE k = ?"
+	// prepared once beforehand, so that every pager below finds the cached entry
+	if err := sess.Query(stmt, "warm").PageState(c15state(set.id, np-1)).Exec(); err != nil {
+		c.Inconclusive("c15-concurrent-warmup", err.Error())
+		return
+	}
+	pagers := 2 + r.Intn(7)
+	var wg sync.WaitGroup
+	var mu sync.Mutex
+	var bad []string
+	for g := 0; g < pagers; g++ {
+		wg.Add(1)
+		start := r.Intn(np)
+		go func(g, start int) {
+			defer wg.Done()
+			for round := 0; round < 40; round++ {
+				page := (start + round) % np
+				q := sess.Query(stmt, fmt.Sprintf("pager%d", g))
+				if page == 0 {
+					q.PageState([]byte{})
+				} else {
+					q.PageState(c15state(set.id, page))
+				}
+				it := q.Iter()
+				var id int32
+				var pad string
+				var got []int32
+				for it.Scan(&id, &pad) {
+					got = append(got, id)
+				}
+				next := it.PageState()
+				err := it.Close()
+				var wantNext []byte
+				if page < np-1 {
+					wantNext = c15state(set.id, page+1)
+				}
+				switch {
+				case err != nil:
+					mu.Lock()
+					bad = append(bad, fmt.Sprintf("pager %d page %d: %v", g, page, err))
+					mu.Unlock()
+					return
+				case !eqI32(got, set.pages[page]):
+					mu.Lock()
+					bad = append(bad, fmt.Sprintf("pager %d asked for page %d and got rows %v, want %v", g, page, clipI(got), clipI(set.pages[page])))
+					mu.Unlock()
+					return
+				case string(next) != string(wantNext):
+					mu.Lock()
+					bad = append(bad, fmt.Sprintf("pager %d: Iter.PageState() = %q after page %d, the node sent %q for that request", g, next, page, wantNext))
+					mu.Unlock()
+					return
+				}
+			}
+		}(g, start)
+	}
+	wg.Wait()
+	c.Add("concurrent_manual_pagers", int64(pagers))
+	c.Eval(runner.H("c15concurrent", version, pagers, np), true)
+	if len(bad) > 0 {
+		c.Violation("C15:manual:concurrent:wrong-page-or-state", bad[0], map[string]interface{}{"pagers": pagers, "pages": np, "all": bad})
+	}
+}
+
 func c15case(c *runner.Ctx, i int) {
 	r := c.Rng
 	version := 2 + i%4
@@ -171,6 +254,9 @@ func c15case(c *runner.Ctx, i int) {
 		return
 	}
 	defer sess.Close()
+	if i%3 == 0 {
+		defer c15concurrentPagers(c, sess, cn, i, version)
+	}
 	nsets := 3 + r.Intn(4)
 	for k := 0; k < nsets; k++ {
 		set := &c15set{id: fmt.Sprintf("q%d_%d", i, k), errAt: -1, prepared: r.Intn(2) == 0}
@@ -238,6 +324,12 @@ func c15case(c *runner.Ctx, i int) {
 		noSkip := r.Intn(4) == 0
 		if noSkip {
 			q.NoSkipMetadata()
+		}
+		if r.Intn(4) == 0 {
+			// an idempotent query with a speculative execution policy whose delay never elapses here: paging
+			// works as without it (every page is still asked for exactly once)
+			q.Idempotent(true).SetSpeculativeExecutionPolicy(&gocql.SimpleSpeculativeExecution{NumAttempts: 1 + r.Intn(2), TimeoutDelay: time.Minute})
+			c.Add("with_speculative_policy", 1)
 		}
 		wantSkip := set.prepared && !cfg.DisableSkipMetadata && !noSkip
 		if wantSkip {
